@@ -230,6 +230,9 @@ def run(ctx):
     for mn_ in ('roots', 'integrate'):
         mm_ = ctx.repo.mod(mn_)
         ctx.guarded('C09-D3', mn_ + '@hidden-state', hiddenstate.check, ctx, 'C09-D3', mm_, [q for q, _ in mm_.functions() if '.' not in q], 'the propagated derivative')
+    from .. import unusedparams
+    for mn_ in ('roots', 'integrate'):
+        ctx.guarded('C09-D3', mn_ + '@parameters', unusedparams.check, ctx, 'C09-D3', ctx.repo.mod(mn_))
     ctx.floor('C09 obligations', len(ctx.obs), 20)
 
 
@@ -249,5 +252,6 @@ SELFTEST = [
 ]
 
 SELFTEST += [
+    ('quad-kwargs-dropped', 'pyerrors/integrate.py', "    ikwargs = {k: kwargs[k] for k in intpars if k in kwargs}", "    ikwargs = {}", 'C09-D3'),
     ('jacobian-cache-by-code', 'pyerrors/roots.py', "from .obs import derived_observable\n", "from .obs import derived_observable\n\n_jac_cache = {}\n\n\ndef _jac(func):\n    key = getattr(func, '__code__', func)\n    if key not in _jac_cache:\n        _jac_cache[key] = func\n    return _jac_cache[key]\n", 'C09-D3'),
 ]
